@@ -397,6 +397,19 @@ where
     /// (`type A = A | string`, `interface A extends A {}`): following such a cycle would never
     /// end, so it is reported and resolves to `on_cycle`.
     fn guard_cycle<R>(&self, ty: &TsType, on_cycle: R, resolve: impl FnOnce() -> R) -> R {
+        // `interface P { x: P['x'] }`: an indexed access can lead back to itself
+        if let TsType::TsIndexedAccessType(access) = ty {
+            if self.expanding_accesses.borrow().contains(&access.span) {
+                HANDLER.with(|handler| {
+                    handler.span_err(access.span, "Type references itself.");
+                });
+                return on_cycle;
+            }
+            self.expanding_accesses.borrow_mut().push(access.span);
+            let resolved = resolve();
+            self.expanding_accesses.borrow_mut().pop();
+            return resolved;
+        }
         let TsType::TsTypeRef(TsTypeRef {
             type_name: TsEntityName::Ident(ident),
             ..
